@@ -2,7 +2,9 @@
 //! real `time_out.rs` and `thread_timer`'s own source (compiled against shuttle
 //! primitives, see shim/) run under a bounded-DFS scheduler and a virtual clock.
 //!
-//!   vh5 <scenario> <max_preemptions> <max_deviations> [max_executions]
+//!   vh5 <scenario> <max_preemptions> <max_deviations> [--max N]
+//!       [--list-prefixes K]                 print the distinct schedule prefixes of length K
+//!       [--prefixes FILE --shard I --nshards N]   explore only below the I-th (mod N) prefixes of FILE
 //!   vh5 replay <scenario> <comma-separated choices>
 //!
 //! Output: JSON records on stdout in the worker protocol of the main harness.
@@ -60,6 +62,7 @@ fn on_event(e: Event) {
     if e == Event::QueryStopped {
         let menu = ADVANCE_MENU.lock().unwrap().clone();
         if menu.len() > 1 {
+            SHARED.lock().unwrap().as_ref().unwrap().lock().unwrap().data_menu = menu.len();
             use shuttle::rand::Rng;
             let k = (shuttle::rand::thread_rng().gen::<u64>() as usize) % menu.len();
             if menu[k] > 0 {
@@ -215,6 +218,84 @@ fn scenario(name: &str) {
             }
             outcome(format!("S6 -> {:?}", got));
         }
+        // slow solve_all where time passes in 600 ms steps (two deviations reach the deadline)
+        "S3b" => {
+            let sn = node("p($Z)", &kb);
+            set_menu(&[0, 600]);
+            let t0 = clock::now();
+            let r = suiron::solve_all(Rc::clone(&sn));
+            let t1 = clock::now();
+            set_menu(&[0]);
+            judge_solve_all("S3b", &r, &p_answers, t0, t1, true);
+            outcome(format!("S3b -> {:?} (search {} ms)", r, t1 - t0));
+        }
+        // slow solve: every call returns the next answer, or the timeout message
+        // if its own deadline passed; `No more.` only when the answers are used up
+        "S7" => {
+            let sn = node("p($Z)", &kb);
+            let mut got = vec![];
+            let mut k = 0usize;
+            for i in 0..5 {
+                set_menu(&[0, 1500]);
+                let t0 = clock::now();
+                let r = suiron::solve(Rc::clone(&sn));
+                let t1 = clock::now();
+                set_menu(&[0]);
+                got.push(r.clone());
+                if r == TIMEOUT_MSG {
+                    if t1 < t0 + LIMIT_MS {
+                        violation("C23", "S7:timeout-although-within-limit", format!("solve call {} reported a timeout; it ran from t={} to t={}", i + 1, t0, t1));
+                    }
+                    break; // what a stopped search answers afterwards is not specified
+                } else if r == "No more." {
+                    if k != p_answers.len() {
+                        violation("C23", "S7:no-more-too-early", format!("solve call {} said 'No more.' after {} of {} answers: {:?}", i + 1, k, p_answers.len(), got));
+                    }
+                    break;
+                } else {
+                    if k >= p_answers.len() || r != p_answers[k] {
+                        violation("C23", "S7:wrong-answer", format!("solve call {} returned {:?}; the answer sequence is {:?}; so far {:?}", i + 1, r, p_answers, got));
+                        break;
+                    }
+                    k += 1;
+                }
+                clock::advance_by(200);
+            }
+            outcome(format!("S7 -> {:?}", got));
+        }
+        // a session, a long idle period (any timer left armed expires now), another session
+        "S8" => {
+            set_menu(&[0]);
+            let sn = node("p($Z)", &kb);
+            let t0 = clock::now();
+            let r1 = suiron::solve_all(Rc::clone(&sn));
+            judge_solve_all("S8a", &r1, &p_answers, t0, clock::now(), false);
+            clock::advance_by(2000);
+            let sn2 = node("s($W)", &kb);
+            let t2 = clock::now();
+            let r2 = suiron::solve_all(Rc::clone(&sn2));
+            judge_solve_all("S8b", &r2, &s_answers, t2, clock::now(), false);
+            if r2 != s_answers.iter().map(|s| s.to_string()).collect::<Vec<_>>() {
+                violation("C22", "S8:second-session-differs", format!("after an earlier session and 2 s of idle time, solve_all returned {:?} but alone it returns {:?}", r2, s_answers));
+            }
+            outcome(format!("S8 -> {:?} then {:?}", r1, r2));
+        }
+        // a timed-out solve, then a fresh fast solve_all session
+        "S9" => {
+            let sn = node("p($Z)", &kb);
+            set_menu(&[0, 1500]);
+            let r1 = suiron::solve(Rc::clone(&sn));
+            set_menu(&[0]);
+            clock::advance_by(100);
+            let sn2 = node("s($W)", &kb);
+            let t2 = clock::now();
+            let r2 = suiron::solve_all(Rc::clone(&sn2));
+            judge_solve_all("S9b", &r2, &s_answers, t2, clock::now(), false);
+            if r2 != s_answers.iter().map(|s| s.to_string()).collect::<Vec<_>>() {
+                violation("C22", "S9:session-after-timeout-differs", format!("after a solve that returned {:?}, a fresh solve_all returned {:?} but alone it returns {:?}", r1, r2, s_answers));
+            }
+            outcome(format!("S9 -> {:?} then {:?}", r1, r2));
+        }
         _ => panic!("unknown scenario {}", name),
     }
 }
@@ -243,29 +324,96 @@ fn main() {
     config.max_steps = shuttle::MaxSteps::FailAfter(20_000);
     config.silence_warnings = true;
 
-    let (name, sched, replaying) = if args[0] == "replay" {
-        let choices: Vec<usize> = args[2].split(',').filter(|s| !s.is_empty()).map(|s| s.parse().unwrap()).collect();
-        (args[1].clone(), BoundedDfs::new(usize::MAX, usize::MAX, 2, shared.clone()).replay(choices), true)
-    } else {
-        let p: usize = args[1].parse().unwrap();
-        let d: usize = args[2].parse().unwrap();
-        let maxe: u64 = args.get(3).and_then(|s| s.parse().ok()).unwrap_or(u64::MAX);
-        (args[0].clone(), BoundedDfs::new(p, d, 2, shared.clone()).with_max_executions(maxe), false)
-    };
-    let start = std::time::Instant::now();
-    let n2 = name.clone();
-    std::panic::set_hook(Box::new(|_| {}));
-    let res = std::panic::catch_unwind(std::panic::AssertUnwindSafe(|| {
-        let runner = shuttle::Runner::new(sched, config);
-        runner.run(move || execution(&n2))
-    }));
-    let sh = shared.lock().unwrap();
-    if let Err(p) = &res {
-        let text = if let Some(s) = p.downcast_ref::<String>() { s.clone() } else if let Some(s) = p.downcast_ref::<&str>() { s.to_string() } else { "panic".into() };
-        let class = if text.contains("deadlock") { "deadlock" } else if sh.divergence.is_some() { "machinery-divergence" } else { "panic" };
-        let ch = sh.current.clone();
-        obs(|o| o.violations.push(("C23".into(), format!("{}:{}", name, class), format!("execution failed: {}", text.lines().next().unwrap_or("")), ch)));
+    let replaying = args[0] == "replay";
+    let name = if replaying { args[1].clone() } else { args[0].clone() };
+    let mut maxe = u64::MAX;
+    let mut list_prefixes: Option<usize> = None;
+    let mut prefix_file: Option<String> = None;
+    let (mut shard, mut nshards) = (0usize, 1usize);
+    let (mut p, mut d) = (usize::MAX, usize::MAX);
+    if !replaying {
+        p = args[1].parse().unwrap();
+        d = args[2].parse().unwrap();
+        let mut i = 3;
+        while i < args.len() {
+            match args[i].as_str() {
+                "--max" => maxe = args[i + 1].parse().unwrap(),
+                "--list-prefixes" => list_prefixes = Some(args[i + 1].parse().unwrap()),
+                "--prefixes" => prefix_file = Some(args[i + 1].clone()),
+                "--shard" => shard = args[i + 1].parse().unwrap(),
+                "--nshards" => nshards = args[i + 1].parse().unwrap(),
+                other => {
+                    eprintln!("unknown option {}", other);
+                    std::process::exit(2);
+                }
+            }
+            i += 2;
+        }
     }
+    // the list of schedulers to run, one after the other
+    let mut scheds: Vec<BoundedDfs> = vec![];
+    if replaying {
+        let choices: Vec<usize> = args[2].split(',').filter(|s| !s.is_empty()).map(|s| s.parse().unwrap()).collect();
+        scheds.push(BoundedDfs::new(usize::MAX, usize::MAX, 2, shared.clone()).replay(choices));
+    } else if let Some(k) = list_prefixes {
+        scheds.push(BoundedDfs::new(p, d, 2, shared.clone()).with_branch_limit(k));
+    } else if let Some(f) = &prefix_file {
+        let text = std::fs::read_to_string(f).expect("prefix file");
+        for (i, line) in text.lines().enumerate() {
+            if i % nshards != shard {
+                continue;
+            }
+            let pre: Vec<usize> = line.split(',').filter(|s| !s.is_empty()).map(|s| s.parse().unwrap()).collect();
+            scheds.push(BoundedDfs::new(p, d, 2, shared.clone()).with_pinned_prefix(pre).with_max_executions(maxe));
+        }
+    } else {
+        scheds.push(BoundedDfs::new(p, d, 2, shared.clone()).with_max_executions(maxe));
+    }
+    let start = std::time::Instant::now();
+    std::panic::set_hook(Box::new(|_| {}));
+    let mut all_complete = true;
+    let mut prefixes: Vec<String> = vec![];
+    let mut failed: Option<String> = None;
+    for sched in scheds {
+        let n2 = name.clone();
+        let cfg = config.clone();
+        shared.lock().unwrap().complete = false;
+        let listing = list_prefixes;
+        let sh2 = shared.clone();
+        let pf = Arc::new(Mutex::new(Vec::<String>::new()));
+        let pf2 = pf.clone();
+        let res = std::panic::catch_unwind(std::panic::AssertUnwindSafe(|| {
+            let runner = shuttle::Runner::new(sched, cfg);
+            runner.run(move || {
+                execution(&n2);
+                if let Some(k) = listing {
+                    let cur = sh2.lock().unwrap().current.clone();
+                    let pre: Vec<String> = cur.iter().take(k).map(|x| x.to_string()).collect();
+                    pf2.lock().unwrap().push(pre.join(","));
+                }
+            })
+        }));
+        prefixes.extend(pf.lock().unwrap().drain(..));
+        let sh = shared.lock().unwrap();
+        all_complete &= sh.complete;
+        if let Err(pn) = &res {
+            let text = if let Some(s) = pn.downcast_ref::<String>() { s.clone() } else if let Some(s) = pn.downcast_ref::<&str>() { s.to_string() } else { "panic".into() };
+            let class = if text.contains("deadlock") { "deadlock" } else if sh.divergence.is_some() { "machinery-divergence" } else { "panic" };
+            let ch = sh.current.clone();
+            obs(|o| o.violations.push(("C23".into(), format!("{}:{}", name, class), format!("execution failed: {}", text.lines().next().unwrap_or("")), ch)));
+            failed = Some(class.to_string());
+            all_complete = false;
+            break;
+        }
+    }
+    let _ = failed;
+    if list_prefixes.is_some() {
+        for l in &prefixes {
+            println!("{}", l);
+        }
+        std::process::exit(if all_complete { 0 } else { 3 });
+    }
+    let sh = shared.lock().unwrap();
     let o = OBS.lock().unwrap().take().unwrap();
     if replaying {
         for (k, v) in &o.outcomes {
@@ -285,16 +433,15 @@ fn main() {
         let chs = ch.iter().map(|x| x.to_string()).collect::<Vec<_>>().join(",");
         println!("{}", json!({"t":"viol","prop":p,"class":c,"kind":c,"msg":m,"witness": if first { json!({"engine":"e5","scenario":name,"choices":chs}) } else { serde_json::Value::Null }}));
     }
-    for (k, v) in o.outcomes.iter().take(12) {
-        println!("{}", json!({"t":"sample","v":{"scenario":name,"outcome":k,"schedules":v}}));
+    for (k, v) in o.outcomes.iter() {
+        println!("{}", json!({"t":"outcome","scenario":name,"outcome":k,"schedules":v}));
     }
     let mut stats = BTreeMap::new();
     stats.insert(format!("e5.{}.schedules", name), sh.executions);
     stats.insert(format!("e5.{}.choice_points", name), sh.choice_points);
-    stats.insert(format!("e5.{}.max_depth", name), sh.max_depth as u64);
-    stats.insert(format!("e5.{}.distinct_outcomes", name), o.outcomes.len() as u64);
+    println!("{}", json!({"t":"max","k":format!("e5.{}.max_depth", name),"v":sh.max_depth}));
     stats.insert(format!("e5.{}.hook_events", name), o.hook_events);
-    stats.insert(format!("e5.{}.complete", name), if sh.complete { 1 } else { 0 });
+    stats.insert(format!("e5.{}.incomplete", name), if all_complete { 0 } else { 1 });
     stats.insert(format!("e5.{}.wall_ms", name), start.elapsed().as_millis() as u64);
     stats.insert("e5.schedules".into(), sh.executions);
     stats.insert("e5.choice_points".into(), sh.choice_points);
